@@ -205,7 +205,7 @@ def search_contract(key, file, batch, extra_req=None, loops=None, extra_fields=N
         ghost_entry=ghost_entry,
         modifies=["self.tracker.best_individual", "self.tracker.hist[]", "class:SearchRecorder", "self.tracker.evaluator.count",
                   "self.problem.ff.fn.ncalls", "all:dict[Problem,Fitness]", "all:field:phenotype", "self.random.*"],
-        props=["C12", "C14"],
+        props=["C12", "C14", "C10"],
     )
 
 
@@ -254,7 +254,7 @@ search_contract(
 TM_OK = {
     "hist_evaluated": "forall(0, len(self.hist), lambda h: self.problem in self.hist[h].fitness_store)",
     "front_empty_iff_nothing_processed": "iff(len(self.pareto_front) == 0, len(self.hist) == 0)",
-    "front_in_hist": "forall(0, len(self.pareto_front), lambda f: exists(0, len(self.hist), lambda h: same(self.pareto_front[f], self.hist[h])))",
+    "front_evaluated": "forall(0, len(self.pareto_front), lambda f: self.problem in self.pareto_front[f].fitness_store)",
     "front_attains_the_best_aggregate": "forall(0, len(self.pareto_front), lambda f: forall(0, len(self.hist), lambda h: "
     + agg("self.pareto_front[f]") + " >= " + agg("self.hist[h]") + "))",
 }
@@ -291,8 +291,6 @@ R.contract(
             invariants={
                 "new_front_starts_with_ind": "len(new_pareto_front) >= 1 and fresh(new_pareto_front)",
                 "new_front_evaluated": "forall(0, len(new_pareto_front), lambda f: self.problem in new_pareto_front[f].fitness_store)",
-                "new_front_in_hist_or_ind": "forall(0, len(new_pareto_front), lambda f: same(new_pareto_front[f], ind) or "
-                "exists(0, len(self.hist), lambda h: same(new_pareto_front[f], self.hist[h])))",
                 "new_front_attains_the_best": "forall(0, len(new_pareto_front), lambda f: " + agg("new_pareto_front[f]") + " >= " + agg("ind") + " and "
                 "forall(0, len(self.hist), lambda h: " + agg("new_pareto_front[f]") + " >= " + agg("self.hist[h]") + "))",
             },
